@@ -757,6 +757,18 @@ def corpus(tier):
             tags=("class", "static-method", "static-call-inside-function-and-method"),
         )
     )
+    U.append(
+        Unit(
+            "named_args_inherited",
+            "class NBase:\n    k: int\n\n    def blend(self, value: int, weight: int) -> int:\n        return value * 10 + weight + self.k\n\n    def wrap(self, left: str, right: str) -> str:\n        return f\"{left}<{self.k}>{right}\"\n\n\n"
+            "class NMid extends NBase:\n    m: int\n\n    def mid_only(self, a: int, b: int) -> int:\n        return a * 100 + b\n\n\nclass NLeaf extends NMid:\n    l: int\n\n\nclass NDeep extends NLeaf:\n    d: int",
+            'leaf = NLeaf(k=0, m=1, l=2)\ndeep = NDeep(k=0, m=1, l=2, d=3)\nmid = NMid(k=0, m=1)\nprintln(leaf.blend(weight=3, value=4))\nprintln(leaf.wrap(right="]", left="["))\nprintln(deep.blend(weight=5, value=6))\nprintln(deep.mid_only(b=7, a=8))\n'
+            "println(mid.blend(weight=1, value=2))\nprintln(leaf.mid_only(b=1, a=2))\nprintln(leaf.blend(4, weight=3))",
+            py_decls="@dataclass\nclass NBase:\n    k: int\n\n    def blend(self, value, weight):\n        return value * 10 + weight + self.k\n\n    def wrap(self, left, right):\n        return f\"{left}<{self.k}>{right}\"\n\n\n"
+            "@dataclass\nclass NMid(NBase):\n    m: int\n\n    def mid_only(self, a, b):\n        return a * 100 + b\n\n\n@dataclass\nclass NLeaf(NMid):\n    l: int\n\n\n@dataclass\nclass NDeep(NLeaf):\n    d: int",
+            tags=("class", "extends", "named-arg", "method-declared-two-or-more-levels-up"),
+        )
+    )
     # functions that construct / match types declared elsewhere in the unit: defaults omitted, named arguments out of order,
     # unit and data variants, methods - the placement lifts move the types and the functions into different modules
     U.append(
